@@ -91,7 +91,7 @@ pub fn case_seeds(check: &Check, tier: &str, seed: u64, i: u64) -> Vec<(u64, u64
                 .map(|c| (derive(seed, &[tag(check.id), i]), derive(seed, &[tag(check.id), i, c + 1])))
                 .collect()
         }
-        Engine::EProof => vec![(derive(seed, &[tag(check.id), i]), 0)],
+        Engine::EProof | Engine::EIo => vec![(derive(seed, &[tag(check.id), i]), 0)],
     }
 }
 
@@ -116,6 +116,14 @@ pub fn run_one(check: &Check, tier: &str, seed: u64, i: u64, scratch: &Path) -> 
             let (h, _) = seeds[0];
             let mut rep = Rep::new(h);
             run_proof_case(check.id, h, i, &mut rep, 200);
+            rep
+        }
+        Engine::EIo => {
+            let (h, _) = seeds[0];
+            let mut rep = Rep::new(h);
+            let dir = scratch.join(format!("io{i}"));
+            crate::eio::run_case(check.id, tier, h, &dir, &mut rep);
+            let _ = std::fs::remove_dir_all(&dir);
             rep
         }
         Engine::EModelMatrix => {
